@@ -28,8 +28,10 @@ class SimResult:
 
 
 def run_sim(exe, prog, mode="parallel", threads=2, ckpt=0, gvt=1000, tend=0, stats="-", displog="-",
-            trace_file=None, trace_mask=0, watchdog=20, timeout=60, ranks=1, delay=None, sched=None, sched_log=None, net=None, spin_ns=0, nostate=0, keep_ticking=False):
+            trace_file=None, trace_mask=0, watchdog=20, timeout=60, ranks=1, delay=None, sched=None, sched_log=None, net=None, spin_ns=0, nostate=0, keep_ticking=False, init_via=False):
     env = {"VERIF_WATCHDOG": str(watchdog)}
+    if init_via:
+        env["VERIF_INIT_VIA"] = "1"      # initial events scheduled by the neighbouring LP's LP_INIT handler (harness/app.c)
     if keep_ticking:
         env["VERIF_KEEP_TICKING"] = "1"
     if nostate:
